@@ -6,7 +6,6 @@ import (
 	"math"
 	"reflect"
 	"regexp"
-	"sort"
 	"strconv"
 	"time"
 
@@ -459,8 +458,12 @@ func viewOf(c *ucfg.Config, opts ...ucfg.Option) interface{} {
 	for i, v := range a {
 		arr[i] = canonData(v)
 	}
-	fields := c.GetFields()
-	sort.Strings(fields)
+	// Unpack into a map drops settings whose value is nil; list them from GetFields
+	for _, k := range c.GetFields() {
+		if _, ok := dict[k]; !ok {
+			dict[k] = nil
+		}
+	}
 	return okRes(J{"isDict": c.IsDict(), "isArray": c.IsArray(), "dict": dict, "arr": arr})
 }
 
